@@ -221,6 +221,26 @@ def r12_4_index_range(ctx):
         ctx.ok("R12.4", "createConstantBlocks:intc-index", {"refused": r.exc_text[:60]}, f.where)
 
 
+def r12_2b_named_ints(ctx):
+    """shared with C08 / C09: the numbering behind `int NoOp`, `int axfer`, ... when constants are assembled"""
+    ctx.rule("R12.2", "named integer constants: the table the constants pass reads equals the AVM's OnCompletion / transaction type numbering, and every EnumInt literal of the package is one of its names")
+    cmod = ctx.model.module("pyteal.compiler.constants")
+    q.need("intEnumValues" in cmod.assigns, "pyteal.compiler.constants.intEnumValues vanished")
+    ok, enumvals = try_const(ctx.model, cmod, cmod.assigns["intEnumValues"])
+    q.need(ok, "intEnumValues is not a literal dict")
+    ctx.check(enumvals == TL.NAMED_INTS, "R12.2", "intEnumValues", f"named integer constants {enumvals} must equal the AVM's OnCompletion / TxnType numbering {TL.NAMED_INTS}", cmod.rel, fact={"table": enumvals})
+    n = 0
+    for fn in ctx.model.modules.values():
+        for node in ast.walk(fn.tree):
+            if isinstance(node, ast.Call) and u(node.func) == "EnumInt" and node.args and isinstance(node.args[0], ast.Constant):
+                n += 1
+                name = node.args[0].value
+                tgt = getattr(node, "parent", None)
+                attr = u(tgt.targets[0]) if isinstance(tgt, ast.Assign) else None
+                ctx.check(name in TL.NAMED_INTS, "R12.2", f"EnumInt({name!r})", f"EnumInt({name!r}) is not a named integer constant of the AVM", f"{fn.rel}:{node.lineno}", fact={"bound_to": attr})
+    q.need(n >= 12, f"only {n} EnumInt literals found; the OnComplete and TxnType enumerations have 13")
+
+
 def r12_2_readers(ctx):
     ctx.rule("R12.2", "literal readers agree with the emitters: the constant-loading pseudo-ops handled are exactly int/byte/addr/method; every byte-literal syntax Bytes/Tmpl/Addr/MethodSignature can emit is understood; every EnumInt literal of the package is a named constant of the table; unknown forms raise")
     f = ctx.model.find_func("createConstantBlocks", "pyteal.compiler.constants")
